@@ -117,7 +117,7 @@ theorem node_writes_allowed : ∀ m ∈ locality, m.nodeWrites ≠ [] → m.modu
 
 open Generated in
 /-- the shared `errors` list is only appended to (or handed to a helper that appends), except on the allow-list -/
-theorem errors_only_appended : ∀ m ∈ locality, m.errorsOtherUses ≠ [] → m.module ∈ errorsReadAllow := by decide +kernel
+theorem errors_only_appended : ∀ m ∈ locality, ∀ u ∈ m.errorsOtherUses, (m.module, u) ∈ errorsReadAllow := by decide +kernel
 
 open Generated in
 /-- every check constructs diagnostics of its own `ErrorInfo` class only -/
